@@ -30,6 +30,17 @@ theorem valid_several_all_named (ops : List Op) (hok : loneAnonymousOk ops = tru
   · omega
   · exact hall o ho
 
+/-- **C10 at union positions.**  No resolver is ever invoked for a selection typed by a union: a union defines no
+field, so a field selected directly under a union-typed field (D103: resolved at the member type as coded at first) is
+reported and not resolved — whatever member the value is.  (`Call.ty` is the type the selection was resolved
+against; with `staticTy` that is the union itself for the selections directly under a union-typed field.) -/
+theorem C10_no_call_at_a_union (env : Env) (ops : List Op) (opName : String) (rootNode : Nat)
+    (rootTy : String → Option String) :
+    ∀ c ∈ (run env ops opName rootNode rootTy).acc.calls, ∀ unm ms, env.schema.find c.ty ≠ some (.union unm ms) := by
+  intro c hc unm ms hu
+  obtain ⟨fd, hfd, _⟩ := C10_never_resolved env ops opName rootNode rootTy c hc
+  simp [getFieldDef, hu, TypeDef.fields] at hfd
+
 theorem gen_anonAmongOthers : Gen.anonAmongOthers = false := by decide
 
 /-- **C01_lone_anonymous_current**: the instance for the configuration regenerated from the source. -/
